@@ -189,9 +189,19 @@ def instrument(prop, beh, idx, rng):
                 out.append({"op": "kvdump", "c": fresh(), "only_ref": lab})
         # (after the epilogue, because a vacuum obliges every other open handle to refresh before it reads again:)
         # a vacuum only makes versions unreadable that its cutoff covers: whatever is still in the bucket reads as before
-        post += [{"op": "refresh", "c": "m1", "when": 400}, {"op": "vacuum", "c": "m1", "cutoff": rng.choice([103, 110, 120, 305])}]
-        for lab in inst.saved:
-            post.append({"op": "kvdump", "c": fresh(), "only_ref": lab})
+        # ... for several cutoffs placed at and just after the creation times of the scenario's versions (= the open /
+        # refresh times of the handles that wrote them), each tried from the same bucket state
+        whens = sorted({st.get("when", 100 + i) for i, st in enumerate(out) if st["op"] in ("open", "refresh")})
+        cands = sorted({w + d for w in whens for d in (0, 1)})
+        rng.shuffle(cands)
+        cuts = sorted(cands[:3] + [rng.choice([103, 110, 120, 305])])
+        post += [{"op": "refresh", "c": "m1", "when": 400}, {"op": "snapshot", "name": "prevac"}]
+        for j, cut in enumerate(cuts):
+            vc = "vc%d" % j
+            post += [{"op": "restore", "name": "prevac"}, {"op": "open", "c": vc, "mode": "rw", "when": 410 + j, "perm": rng.randrange(6)},
+                     {"op": "vacuum", "c": vc, "cutoff": cut}]
+            for lab in inst.saved:
+                post.append({"op": "kvdump", "c": fresh(), "only_ref": lab})
     elif prop == "C12":
         for s in steps:
             out.append(s)
